@@ -2,15 +2,17 @@ SPECIFICATION Spec
 CONSTANTS
   Apps <- AllApps
   Catching <- Both
-  Verbs <- Verbs4
-  MCLines <- LinesOK
+  Verbs <- Verbs2
+  MCLines <- LinesTwo
   Pres <- PresNone
   MaxListeners = 0
   ListenerKinds <- NoKinds
   ListenerValues <- NoValues
   OutValues <- ValuesAll
   OutKinds <- KindsAll
-  MCScopes <- ScopesAll
+  MCScopes <- ScopesTwo
+  MCRoutes <- RoutesAll
+  MCExits <- Both
   Emitting = TRUE
 INVARIANT PContained
 INVARIANT PZeroIff
